@@ -1,16 +1,17 @@
 package main
 
 import (
-	"time"
 	"context"
 	"crypto/ed25519"
 	"crypto/sha256"
 	"encoding/json"
+	"errors"
 	"fmt"
 	"os"
 	"path/filepath"
 	"sort"
 	"strings"
+	"time"
 
 	"github.com/corestario/kyber/pairing"
 	"github.com/corestario/kyber/pairing/bls12381"
@@ -47,7 +48,7 @@ func (quietLogger) Log(string, ...interface{}) {}
 
 type memKeyStore struct{ kp *keystore.KeyPair }
 
-func (m memKeyStore) PutKeys(string, *keystore.KeyPair) error           { return nil }
+func (m memKeyStore) PutKeys(string, *keystore.KeyPair) error            { return nil }
 func (m memKeyStore) LoadKeys(string, string) (*keystore.KeyPair, error) { return m.kp, nil }
 
 func userKey(name string) *keystore.KeyPair {
@@ -121,13 +122,23 @@ type crashCtl struct {
 	remaining int
 	log       []string // labels of the durable writes seen while recording
 	record    bool
+	// a write FAULT instead of a death: the (faultAfter+1)-th durable write returns an error once
+	faultArmed bool
+	faultAfter int
 }
 
 type crashSignal struct{}
 
-func (c *crashCtl) hit(label string) {
+func (c *crashCtl) hit(label string) error {
 	if c.record {
 		c.log = append(c.log, label)
+	}
+	if c.faultArmed {
+		if c.faultAfter == 0 {
+			c.faultArmed = false
+			return errors.New("injected write fault: " + label)
+		}
+		c.faultAfter--
 	}
 	if c.armed {
 		if c.remaining == 0 {
@@ -136,6 +147,7 @@ func (c *crashCtl) hit(label string) {
 		}
 		c.remaining--
 	}
+	return nil
 }
 
 type crashState struct {
@@ -158,7 +170,9 @@ func keyLabel(key string) string {
 }
 
 func (s crashState) Set(key string, value []byte) error {
-	s.ctl.hit(keyLabel(key))
+	if err := s.ctl.hit(keyLabel(key)); err != nil {
+		return err
+	}
 	return s.State.Set(key, value)
 }
 
@@ -169,7 +183,9 @@ type crashBoard struct {
 
 func (b crashBoard) Send(msgs ...storage.Message) error {
 	for i := range msgs {
-		b.ctl.hit("Send")
+		if err := b.ctl.hit("Send"); err != nil {
+			return err
+		}
 		if err := b.Storage.Send(msgs[i]); err != nil {
 			return err
 		}
@@ -618,13 +634,13 @@ func (e *NodeEnv) projOut(m storage.Message) string {
 
 // ---- inputs ----
 type NInput struct {
-	Kind   string // msg | reinit | result | restart
-	Msg    storage.Message
+	Kind    string // msg | reinit | result | restart
+	Msg     storage.Message
 	SigDesc string // none | junk | by <key> <data>
-	Now    int64
-	Result *dto.OperationDTO
-	Label  string
-	CrashK int
+	Now     int64
+	Result  *dto.OperationDTO
+	Label   string
+	CrashK  int
 }
 
 func sigDescOf(m storage.Message, users []string) string {
